@@ -709,16 +709,27 @@ class Series:
     def any(self):
         return mnp.any(self._v)
 
+    def _arg(self, f):
+        # pandas skips missing values (skipna=True); the position refers to the whole series
+        pos = [i for i, v in enumerate(self._v) if not _isnanv(v)]
+        if not pos:
+            return -1
+        return pos[f(NDArr(_obj([self._v._a[i] for i in pos])))]
+
     def argmin(self):
-        return mnp.argmin(self._v)
+        return self._arg(mnp.argmin)
 
     def argmax(self):
-        return mnp.argmax(self._v)
+        return self._arg(mnp.argmax)
 
     def rank(self, ascending=True, method="average"):
-        vals = list(self._v)
+        allvals = list(self._v)
+        vals = [v for v in allvals if not _isnanv(v)]  # missing values keep a missing rank and do not count
         out = []
-        for a in vals:
+        for a in allvals:
+            if _isnanv(a):
+                out.append(mnp.nan)
+                continue
             less = 0
             eq = 0
             for b in vals:
@@ -1044,6 +1055,12 @@ class DataFrame:
             raise ValueError("Length of index does not match number of rows")
 
     # -- structure
+    def dropna(self, axis=0, how="any", **kw):
+        if axis not in (0, "index") or how != "any" or kw:
+            raise ModelGap("DataFrame.dropna with axis/how/subset options")
+        keep = [r for r in _b.range(len(self.index)) if not _b.any(_isnanv(self._cols[c]._a[r]) for c in self.columns)]
+        return self.iloc[keep]
+
     def __len__(self):
         return len(self.index)
 
@@ -1252,6 +1269,26 @@ class DataFrame:
 
     def sum(self, axis=0):
         return self._agg(axis, mnp._sum)
+
+    def __mul__(self, o):
+        """frame * scalar, or frame * 1-D array aligned with the columns (numpy broadcasting along rows)"""
+        out = DataFrame()
+        out.index = self.index
+        if isinstance(o, (DataFrame, Series)):
+            raise ModelGap("DataFrame * labelled operand")
+        if mnp._is_arraylike(o):
+            w = list(_obj(o).flat)
+            if len(w) != len(self.columns):
+                raise ValueError("Unable to coerce to Series, length must be %d: given %d" % (len(self.columns), len(w)))
+        else:
+            w = [o] * len(self.columns)
+        for c, wc in zip(self.columns, w):
+            out._cols[c] = self._cols[c] * wc
+            out.columns.append(c)
+        return out
+
+    __rmul__ = __mul__
+    __array_priority__ = 1000
 
     def astype(self, t):
         out = DataFrame()
